@@ -63,7 +63,7 @@ def make_items(tier, seed):
     push(rest_progs, rest)
     if tier == "thorough":
         return core + rest
-    return slice_quick(core + rest, seed, len(core), 1500)
+    return slice_quick(core + rest, seed, len(core), 3000)
 
 
 def check_item(spec):
